@@ -51,7 +51,18 @@ def bundled(ctx, res):
 
 
 def run(ctx):
-    return bundled(ctx, _run(ctx))
+    res = bundled(ctx, _run(ctx))
+    # the parser attaches children through the same matcher as the builder API: valid words in
+    # document order (the parser's path) on all 94 content models
+    from props import matcher_common as mc
+    m = mc.generic_run(ctx, 'C02', ['word', 'word', 'worddup', 'word', 'worddel', 'word', 'addonly', 'word'], n_quick=8, n_thorough=120)
+    for v in m['violations']:
+        v['replay']['property'] = 'C08'
+    res['violations'] += m['violations']
+    res['evaluations'] += m['evaluations']
+    res['disagreements'] += m['disagreements']
+    res['coverage']['matcher_correspondence'] = m['coverage']
+    return res
 
 
 def _run(ctx):
